@@ -1,6 +1,7 @@
 package cmd
 
 import (
+	"github.com/ErdemOzgen/blackdagger/internal/config"
 	"github.com/spf13/cobra"
 	"github.com/spf13/viper"
 )
@@ -52,6 +53,7 @@ func init() {
 func initialize() {
 	if cfgFile != "" {
 		viper.SetConfigFile(cfgFile)
+		config.ConfigFile = cfgFile
 		return
 	}
 }
